@@ -1,6 +1,7 @@
 package props
 
 import (
+	"github.com/libp2p/go-libp2p/core/host"
 	"bytes"
 	"context"
 	"errors"
@@ -90,6 +91,7 @@ type c04Run struct {
 	mu      sync.Mutex
 	ctxStop context.CancelFunc
 	hookFailed int // FailSync calls made by the hook
+	tl      *tapLog
 }
 
 type c04Env struct {
@@ -204,6 +206,7 @@ func closedAfter(d time.Duration) <-chan struct{} {
 }
 
 func runC04(c *vf.Ctx) {
+	c04Unusable(c)
 	const sub = "fault-then-retry"
 	if !c.Active(sub) {
 		return
@@ -330,16 +333,38 @@ func (ru *c04Run) syncOnce(front *Front, head cid.Cid, withCtxCancel bool) c04Ob
 	front.ResetLog()
 	ru.hl.reset()
 	if ru.k.Announced {
+		tl := ru.tl
+		recvBefore := tl.count("watch.recv")
 		err := ru.sub.Announce(context.Background(), head, ru.pi)
 		if err != nil {
 			o.err = fmt.Errorf("announce: %w", err)
 		} else {
-			select {
-			case ev := <-ru.evs:
-				o.events = append(o.events, ev)
-				o.err = ev.Err
-			case <-time.After(90 * time.Second):
-				o.err = errNoNotification
+			// the one notification, or the logical end of the announcement's handling without one (the watcher took
+			// the announcement, every handling goroutine started has exited, the distributor has taken up every
+			// notification sent); the deadline only bounds the wait for an announcement that never reaches the watcher
+			deadline := time.Now().Add(90 * time.Second)
+			o.err = errNoNotification
+		wait:
+			for time.Now().Before(deadline) {
+				select {
+				case ev := <-ru.evs:
+					o.events = append(o.events, ev)
+					o.err = ev.Err
+					break wait
+				case <-time.After(500 * time.Microsecond):
+				}
+				if tl.count("watch.recv") > recvBefore && tl.count("watch.recv") == tl.count("watch.swap.spawn")+tl.count("watch.swap.replaced") &&
+					tl.count("watch.swap.spawn") == tl.count("async.enter") && tl.count("async.enter") == tl.count("async.exit") &&
+					tl.count("event.emit.begin") == tl.count("event.emit.end") && tl.count("dist.forward") == tl.count("event.emit.end") {
+					time.Sleep(2 * time.Millisecond) // the distributor's send to the listener queue follows its tap
+					select {
+					case ev := <-ru.evs:
+						o.events = append(o.events, ev)
+						o.err = ev.Err
+					default:
+					}
+					break wait
+				}
 			}
 		}
 	} else {
@@ -400,6 +425,8 @@ func c04One(c *vf.Ctx, sub string, i int, env *c04Env, k c04Case) {
 		return
 	}
 	ru.sub = s
+	ru.tl = installTap(c, int64(i), 0)
+	defer ru.tl.uninstall()
 	ru.evs, ru.cancel = s.OnSyncFinished()
 	switch k.Addrs {
 	case "one":
@@ -589,3 +616,213 @@ func c04One(c *vf.Ctx, sub string, i int, env *c04Env, k c04Case) {
 		c.Sample(sub, wit())
 	}
 }
+
+// c04Unusable: the sync fails before any request is made, because no sync client can be made from the addresses
+// that came with the call or the announcement (a plain TCP address for a subscriber without a libp2p host, or no
+// address at all for an unknown publisher). It is a failed sync like any other: nothing durable changes, an
+// announce-triggered one produces its one error notification and the CID may be announced again, and the next
+// sync with a usable address succeeds.
+func c04Unusable(c *vf.Ctx) {
+	const sub = "unusable-address"
+	if !c.Active(sub) {
+		return
+	}
+	env, err := newC04Env(c, c.Rand(sub, -1), false)
+	if err != nil {
+		c.Fail(sub, -1, "harness-env", err.Error(), nil)
+		return
+	}
+	defer env.close()
+	n := c.N(24, 400)
+	for i := 0; i < n; i++ {
+		if !c.Mine(sub, i) {
+			continue
+		}
+		r := c.Rand(sub, i)
+		announced := i%2 == 0
+		withHost := (i/2)%2 == 0
+		kind := []string{"tcp-only-address", "no-address-unknown-publisher", "udp-only-address"}[(i/4)%3]
+		mount := []FrontMode{MountPlain, MountLegacy, MountDiscovery}[r.Intn(3)]
+		desc := fmt.Sprintf("announced=%v subscriber-has-libp2p-host=%v addresses=%s mount=%s", announced, withHost, kind, mount)
+		c.Cur(sub, i, desc)
+		front := env.front[mount]
+		front.Plan = nil
+		front.ResetLog()
+		dst := NewStore()
+		hl := &hookLog{}
+		var h host.Host
+		if withHost {
+			if h, err = newHost(); err != nil {
+				c.Inconclusive(sub, i, "host-create", err.Error(), nil)
+				continue
+			}
+		}
+		tl := installTap(c, r.Int63(), 0)
+		var s *dagsync.Subscriber
+		opts := []dagsync.Option{dagsync.BlockHook(adPrevHook(dst, hl)), dagsync.HttpTimeout(2 * time.Second), dagsync.RecvAnnounce("")}
+		if h != nil {
+			s, err = dagsync.NewSubscriber(h, dst.Lsys, opts...)
+		} else {
+			s, err = dagsync.NewSubscriber(nil, dst.Lsys, opts...)
+		}
+		if err != nil {
+			c.Fail(sub, i, "harness-subscriber", err.Error(), nil)
+			tl.uninstall()
+			continue
+		}
+		evs, cancel := s.OnSyncFinished()
+		var phases []string
+		wit := func() any { return map[string]any{"case": desc, "phases": phases, "requests": BlockRequests(front.Log())} }
+		bad := peer.AddrInfo{ID: env.id.ID}
+		switch kind {
+		case "tcp-only-address":
+			bad.Addrs = []multiaddr.Multiaddr{multiaddr.StringCast("/ip4/127.0.0.1/tcp/1")}
+		case "udp-only-address":
+			bad.Addrs = []multiaddr.Multiaddr{multiaddr.StringCast("/ip4/127.0.0.1/udp/1")}
+		}
+		base, head := env.chain.Cids[c04Base], env.chain.Cids[c04Head]
+		// one sync, explicit or announced; for an announcement the end of its handling is detected logically
+		// (every handling goroutine that was started has exited and the distributor has taken up what was sent)
+		doSync := func(pi peer.AddrInfo) (error, []dagsync.SyncFinished) {
+			var got []dagsync.SyncFinished
+			drain := func() {
+				deadline := time.Now().Add(30 * time.Second)
+				for time.Now().Before(deadline) && tl.count("dist.forward") < tl.count("event.emit.end") {
+					time.Sleep(200 * time.Microsecond)
+				}
+				time.Sleep(time.Millisecond)
+				for {
+					select {
+					case ev := <-evs:
+						got = append(got, ev)
+						continue
+					default:
+					}
+					break
+				}
+			}
+			if !announced {
+				_, err := s.SyncAdChain(context.Background(), pi)
+				drain()
+				return err, got
+			}
+			recvBefore := tl.count("watch.recv")
+			if err := s.Announce(context.Background(), head, pi); err != nil {
+				return fmt.Errorf("announce: %w", err), nil
+			}
+			deadline := time.Now().Add(60 * time.Second)
+			quiet := false
+			for time.Now().Before(deadline) {
+				if tl.count("watch.recv") == recvBefore {
+					// (an announcement of a CID the receiver has seen and not un-cached is dropped before the watcher)
+					if time.Now().After(deadline.Add(-58 * time.Second)) {
+						break
+					}
+				} else if tl.count("watch.recv") == tl.count("watch.swap.spawn")+tl.count("watch.swap.replaced") &&
+					tl.count("watch.swap.spawn") == tl.count("async.enter") && tl.count("async.enter") == tl.count("async.exit") &&
+					tl.count("event.emit.begin") == tl.count("event.emit.end") {
+					quiet = true
+					break
+				}
+				time.Sleep(300 * time.Microsecond)
+			}
+			drain()
+			if tl.count("watch.recv") == recvBefore {
+				return errAnnouncementDropped, got
+			}
+			if !quiet {
+				return errNoNotification, got
+			}
+			if len(got) == 0 {
+				return errHandledWithoutNotification, got
+			}
+			return got[len(got)-1].Err, got
+		}
+		c.Guard(sub, i, wit, func() {
+			for x := 0; x <= c04Base; x++ {
+				raw, _ := env.pub.Raw(env.chain.Cids[x])
+				dst.PutRaw(env.chain.Cids[x], raw)
+			}
+			_ = s.SetLatestSync(env.id.ID, base)
+			front.Pub.SetRoot(head)
+			writes := dst.NumWrites()
+			// ---- phase 1: unusable addresses
+			err1, ev1 := doSync(bad)
+			phases = append(phases, fmt.Sprintf("sync with unusable addresses: err=%v notifications=%d", err1, len(ev1)))
+			switch {
+			case err1 == nil:
+				c.Fail(sub, i, "sync-with-unusable-address-succeeded:"+kind, "", wit())
+				return
+			case err1 == errNoNotification:
+				c.Inconclusive(sub, i, "announcement-handling-did-not-end", "", wit())
+				return
+			case err1 == errHandledWithoutNotification:
+				c.Fail(sub, i, "failed-announce-sync-without-notification:"+kind, "the announcement was taken up, its handling ended, and no notification was sent", wit())
+			case err1 == errAnnouncementDropped:
+				c.Fail(sub, i, "announcement-dropped:"+kind, "", wit())
+				return
+			}
+			c.Inc("unusable_address_syncs_failed")
+			if l := latestOf(s, env.id.ID); !l.Equals(base) {
+				c.Fail(sub, i, "latest-changed-by-failed-sync:"+kind, l.String(), wit())
+			}
+			if dst.NumWrites() != writes || len(hl.list()) != 0 {
+				c.Fail(sub, i, "failed-sync-wrote-or-reported-blocks:"+kind, "", wit())
+			}
+			for _, ev := range ev1 {
+				if ev.Err == nil {
+					c.Fail(sub, i, "success-notification-for-failed-sync:"+kind, fmt.Sprint(ev), wit())
+				}
+			}
+			if announced && err1 != errHandledWithoutNotification && (len(ev1) != 1 || !ev1[0].Cid.Equals(head)) {
+				c.Fail(sub, i, "announced-failure-not-one-error-notification:"+kind, fmt.Sprint(ev1), wit())
+			}
+			if !announced && len(ev1) != 0 {
+				c.Fail(sub, i, "notification-for-failed-explicit-sync:"+kind, fmt.Sprint(ev1), wit())
+			}
+			// ---- phase 2: the same head with a usable address
+			err2, ev2 := doSync(front.AddrInfo())
+			phases = append(phases, fmt.Sprintf("same head with the publisher's real address: err=%v notifications=%d", err2, len(ev2)))
+			if err2 == errAnnouncementDropped {
+				c.Fail(sub, i, "reannouncement-after-failure-ignored:"+kind, "the CID of the failed announce-triggered sync cannot be announced again", wit())
+				return
+			}
+			if err2 != nil {
+				c.Fail(sub, i, "retry-after-faults-stopped-failed:"+kind, err2.Error(), wit())
+				return
+			}
+			if l := latestOf(s, env.id.ID); !l.Equals(head) {
+				c.Fail(sub, i, "retry-latest-differs-from-fault-free-run:"+kind, l.String(), wit())
+			}
+			ok := 0
+			for _, ev := range ev2 {
+				if ev.Err == nil && ev.Cid.Equals(head) {
+					ok++
+				}
+			}
+			if ok != 1 {
+				c.Fail(sub, i, "retry-success-notification-count:"+kind, fmt.Sprint(ev2), wit())
+			}
+			for x := 0; x <= c04Head; x++ {
+				raw, okb := dst.Raw(env.chain.Cids[x])
+				want, _ := env.pub.Raw(env.chain.Cids[x])
+				if !okb || !bytes.Equal(raw, want) {
+					c.Fail(sub, i, "final-store-differs-from-fault-free-run:"+kind, fmt.Sprintf("block %d", x), wit())
+					break
+				}
+			}
+		})
+		cancel()
+		s.Close()
+		tl.uninstall()
+		if h != nil {
+			h.Close()
+		}
+		c.Eval(2)
+		c.Inc("unusable_address_cases")
+		c.Distinct(sub, desc)
+	}
+}
+
+var errAnnouncementDropped = errors.New("announcement was dropped before it reached the subscriber's watcher")
+var errHandledWithoutNotification = errors.New("announcement handled without a notification")
